@@ -15,6 +15,8 @@ from .abstract import AList
 
 PI = z3.Real('pi')
 SQRT2 = z3.Real('sqrt2')
+INV_PI = z3.Real('inv_pi')
+INV_SQRT2 = z3.Real('inv_sqrt2')
 COS = z3.Function('cos', z3.RealSort(), z3.RealSort())
 SIN = z3.Function('sin', z3.RealSort(), z3.RealSort())
 SQRT = z3.Function('sqrt', z3.RealSort(), z3.RealSort())
@@ -26,7 +28,10 @@ LOG10 = z3.Function('log10', z3.RealSort(), z3.RealSort())
 GLOBAL_AXIOMS = [
     PI > z3.RealVal('3.14159'), PI < z3.RealVal('3.1416'),
     SQRT2 > 0, SQRT2 * SQRT2 == 2,
+    PI * INV_PI == 1, SQRT2 * INV_SQRT2 == 1,
 ]
+
+CTX.global_axioms = GLOBAL_AXIOMS
 
 AXIOM_LIST = [
     'pi is a real constant with 3.14159 < pi < 3.1416',
